@@ -3,6 +3,7 @@ package broker
 import (
 	"encoding/json"
 	"fmt"
+	"time"
 
 	"github.com/mdzio/go-mqtt/verifrt/vsched"
 	"verif/engine/explore"
@@ -42,7 +43,7 @@ func C05(c *core.Ctx) {
 	if c.Thorough() {
 		dev = 2
 	}
-	c.Rep.Bound = fmt.Sprintf("ENUM x HIST: the valid packet corpus, every (third) truncation and single-byte corruptions of its length/flag fields, oversized announced lengths, and every cut point of a valid exchange, each sent before and after CONNECT on the attacker's connection, followed by a cut / more bytes / nothing, with a witness publisher and subscriber exchanging numbered messages before and after; SCHED: the attacker (subscribed to the witness topic, reading or not) is cut while the witness publishes to it, every schedule deviating from the default at <= %d points from the cut on", dev)
+	c.Rep.Bound = fmt.Sprintf("ENUM x HIST: the valid packet corpus, every (third) truncation and single-byte corruptions of its length/flag fields, oversized announced lengths, and every cut point of a valid exchange, each sent before and after CONNECT on the attacker's connection, followed by a cut / more bytes / nothing, with a witness publisher and subscriber exchanging numbered messages before and after; SCHED: the attacker (subscribed to the witness topic; reading, not reading, or with a full outgoing ring) is cut, sends garbage, sends DISCONNECT or runs into its keep-alive while the witness publishes to it, every schedule deviating from the default at <= %d points from the cut on", dev)
 	c.Rep.Rule = "oracle: no library goroutine panics outside a recover (the process stays up), the witness connections stay open, answer PINGREQ and receive exactly the numbered messages, in order; nothing is demanded of the attacker's own connection; non-trivial = streams after which the attacker's connection was closed by the broker"
 	comps := map[string]bool{"route": true, "closed": true, "acks": true, "stream": true}
 	if c.Replay != nil {
@@ -138,7 +139,7 @@ func C05(c *core.Ctx) {
 
 // c05sched: the attacker's teardown races the fan-out of the witness' publishes to it.
 func c05sched(c *core.Ctx, dev int) {
-	for _, variant := range []string{"attacker-first", "attacker-last", "attacker-not-reading", "attacker-ring-full"} {
+	for _, variant := range []string{"attacker-first", "attacker-last", "attacker-not-reading", "attacker-ring-full", "attacker-ring-full/garbage", "attacker-ring-full/disconnect", "attacker-ring-full/keepalive"} {
 		for _, q := range []byte{0, 1} {
 			variant, q := variant, q
 			name := fmt.Sprintf("cut-during-fanout/%s/qos%d", variant, q)
@@ -152,17 +153,21 @@ func c05sched(c *core.Ctx, dev int) {
 				ws := t.connect("WS", 0, 65535, false)
 				if x == nil {
 					cap := 0
-					if variant == "attacker-not-reading" || variant == "attacker-ring-full" {
+					ka := uint16(65535)
+					if variant != "attacker-first" && variant != "attacker-last" {
 						cap = 256
 					}
-					x = t.connect("X", cap, 65535, false)
+					if variant == "attacker-ring-full/keepalive" {
+						ka = 10
+					}
+					x = t.connect("X", cap, ka, false)
 				}
 				t.subscribe("WS", "wit/ness", 1)
 				t.subscribe("X", "wit/ness", q)
 				if vsched.Failed() {
 					return
 				}
-				if variant == "attacker-ring-full" {
+				if len(variant) >= 18 && variant[:18] == "attacker-ring-full" {
 					// 8000-byte messages first: the attacker's outgoing ring fills up and the
 					// witness publisher's processor ends up waiting for room in it
 					ws.noRead = false
@@ -177,7 +182,16 @@ func c05sched(c *core.Ctx, dev int) {
 				for k := 0; k < 2; k++ {
 					wp.rc.Send(&refcodec.Packet{Type: refcodec.PUBLISH, Topic: []byte("wit/ness"), QoS: q, ID: uint16(20 + k), Payload: []byte(fmt.Sprintf("n%d", k))})
 				}
-				x.rc.Cut()
+				switch variant {
+				case "attacker-ring-full/garbage":
+					x.rc.SendRaw([]byte{0xf0, 0x00})
+				case "attacker-ring-full/disconnect":
+					x.rc.Send(&refcodec.Packet{Type: refcodec.DISCONNECT})
+				case "attacker-ring-full/keepalive":
+					vsched.Advance(16 * time.Second)
+				default:
+					x.rc.Cut()
+				}
 				x.ended = true
 				t.settleExcept()
 				// the witness pair is unharmed
